@@ -7,64 +7,64 @@ props = [json.loads(l) for l in open(os.path.join(ROOT, "properties.jsonl"))]
 
 META = {
  "C01": ("exploration", "runtime monitoring: round-trip oracle over generated subroutines + icontract postcondition on Flavour.__init__",
-         "Every flavour x class x field position is swept over all register/immediate values and boundary 32-bit values through the repo's own bytes()/deserialize(); tables are checked by a postcondition on the real constructor. Sampled, not proved: 32-bit operand values and sequences are sampled.",
+         "Every flavour x class x field position is swept over all register/immediate values and boundary 32-bit values through the repo's own bytes()/deserialize(); tables are checked by a postcondition on the real constructor; decode and encode are repeated after the results were edited in place by a consumer. Sampled, not proved: 32-bit operand values and sequences are sampled.",
          "frozen field-layout table vf/ref/isa.py; classes discovered from the working tree", "3 C01"),
  "C02": ("exploration", "runtime monitoring: differential against a frozen struct-based reference encoder, both directions",
-         "Byte-for-byte comparison with an independent encoder for every class x field x bit (walking ones, pairwise-distinct operands) and random subroutines; catches consistent encoder+decoder changes that every round-trip test misses.",
+         "Byte-for-byte comparison with an independent encoder for every class x field x bit (walking ones, pairwise-distinct operands) and random subroutines; catches consistent encoder+decoder changes that every round-trip test misses; re-encoding after in-place updates and concurrent encoding by four application threads are compared with the reference too.",
          "the frozen table in vf/ref/isa.py is the published instruction table", "3 C02"),
  "C03": ("exploration", "runtime monitoring: structural alignment monitor + differential execution (R-INTERP on source vs assembled vs real Executor)",
-         "Random source programs (labels anywhere, literals everywhere, macros, brackets) are assembled by the real assembler and run on the real executor; compared with a direct interpretation of the source.",
+         "Random source programs (labels anywhere, literals everywhere, macros, brackets) incl. zero-padded numerals and IR grown in place, are assembled by the real assembler and run on the real executor; compared with a direct interpretation of the source.",
          "R-INTERP reference interpreter; programs up to 40 statements, step bound", "3 C03"),
  "C04": ("exploration", "runtime monitoring: lock-step differential of the real Executor against the reference interpreter R-INTERP",
-         "Random and reference-guided instruction-level programs and multi-subroutine histories run on the real base Executor; PC trace, all registers, arrays, unit module, publications, fault line and no-partial-effect compared with an independent interpreter.",
+         "Random and reference-guided instruction-level programs and multi-subroutine histories run on the real base Executor; PC trace, all registers, arrays, unit module, publications, the host copy of returned arrays between returns, fault line and no-partial-effect compared with an independent interpreter.",
          "R-INTERP is trusted; documented domain restrictions are discarded, not judged", "3 C04"),
  "C05": ("exploration", "runtime monitoring: differential of the SDK->bytes->controller pipeline against direct evaluation of the host program (R-HOST)",
-         "Random nested host programs with every flush placement run through the full pipeline with scripted measurement outcomes; gate trace, outcome placement, final memory and every host handle after every flush compared with direct evaluation.",
+         "Random nested host programs with every flush placement run through the full pipeline with scripted measurement outcomes; gate trace, outcome placement, final memory and every host handle after every flush compared with direct evaluation; register handles measured again across flushes.",
          "R-HOST evaluator; state-vector backend at the executor's extension points", "3 C05"),
  "C06": ("exploration", "runtime monitoring: twin-connection differential (precompiled+instantiated vs directly flushed)",
-         "The same host program is run on two connections (compile/instantiate/commit vs flush with concrete values) and compared at every flush boundary and after close.",
+         "The same host program is run on two connections (compile/instantiate/commit vs flush with concrete values) and compared at every flush boundary and after close; identical templated rounds with per-round values.",
          "state-vector backend; template values 0..255", "3 C06"),
  "C07": ("exploration", "runtime monitoring: emitted NV sequences executed on the real executor, unitary compared with independent operators; exhaustive over gates x placements x angles",
-         "Every accepted gate, placement and (n,d) is transpiled by the real transpiler and executed on the real executor over an independent state-vector backend; the full unitary (electron included) is compared up to global phase; published matrices compared with independent operators.",
+         "Every accepted gate, placement and (n,d) is transpiled by the real transpiler and executed on the real executor over an independent state-vector backend; the full unitary (electron included) is compared up to global phase; published matrices compared with independent operators; every other sequence is executed as decoded from its bytes.",
          "R-QUANTUM operator definitions", "3 C07"),
- "C08": ("exploration", "runtime monitoring: differential execution vanilla vs NV-transpiled program + structural retarget monitor",
-         "SDK-emitted and directly generated vanilla subroutines are run before and after transpilation from the same state with the same measurement script.",
+ "C08": ("exploration", "runtime monitoring: differential execution vanilla vs NV-transpiled program + structural retarget monitor + electron-control monitor on the transpiled run",
+         "SDK-emitted and directly generated vanilla subroutines are run before and after transpilation from the same state with the same measurement script (branches onto gates, bystander and carried-over registers included); every controlled rotation of the transpiled run must be electron-controlled.",
          "state-vector backend; known finding for loaded Q registers", "3 C08"),
  "C09": ("exploration", "runtime monitoring: controller-fault and active-set invariants over random qubit/EPR histories",
-         "Random histories of qubit creation, gates, measurement, free, EPR operations and flushes within the budget are run through the pipeline; any controller fault or a mismatch between connection.active_qubits and the unit module is a violation.",
+         "Random histories of qubit creation, gates, measurement, free, EPR operations and flushes within the budget are run through the pipeline; any controller fault or a mismatch between connection.active_qubits and the unit module is a violation; a quarter of the histories follow an earlier program on the same controller that closed holding qubits.",
          "scripted link layer; SDK build-time refusals are not alarms", "3 C09"),
  "C10": ("exploration", "runtime monitoring: state-vector fidelity with a modelled remote partner over enumerated Bell-state tuples; exact outcome distributions",
          "Pairs 1..4 x all Bell tuples x API variants x hardware configs run through the pipeline; each kept qubit's joint state with its partner must be Phi+, other qubits untouched; measure-directly statistics computed exactly.",
          "link model delivers well-formed responses; known finding for corrections on virtual qubit 0", "3 C10"),
  "C11": ("exploration", "runtime monitoring: recording network stack + uniquely tagged responses, field-by-field comparison",
-         "Parameter grid of create/recv calls; the LinkLayerCreate received by a recording stack is compared field by field, converted with request_to_qlink_1_0, and every result handle must read the tagged field of its pair.",
+         "Parameter grid of create/recv calls; the LinkLayerCreate received by a recording stack is compared field by field, converted with request_to_qlink_1_0, and every result handle must read the tagged field of its pair; request sessions with several connections, same-id successors, reused sockets and a renumbered network on one long-lived controller.",
          "responses are well-formed", "3 C11"),
  "C12": ("exploration", "runtime monitoring: systematic exploration of delivery/step interleavings with an R-LINK model and a consume-once history checker",
-         "All interleavings of instruction steps and response deliveries of small scenarios (plus random schedules of larger ones) on the real executor; final state compared with a 30-line matching model; online history checker for exactly-once, FIFO, pair->slice.",
+         "All interleavings of instruction steps and response deliveries of small scenarios (plus random schedules of larger ones) on the real executor; final state compared with a 30-line matching model; online history checker for exactly-once, FIFO, pair->slice; randomly generated scenarios with application stops, unnumbered responses and re-opened sockets.",
          "responses of one key arrive in request/pair order", "3 C12"),
  "C13": ("exploration", "runtime monitoring: invariants at quiescent points over message-level histories (bounded DFS + random walks)",
-         "Histories of init/subroutine/stop messages (as bytes) over up to three applications on real QNodeControllers; physical-qubit disjointness, used==mapped, isolation snapshots and clean re-registration checked after every message.",
+         "Histories of init/subroutine/stop messages (as bytes) over up to three applications on real QNodeControllers; physical-qubit disjointness, used==mapped, isolation snapshots and clean re-registration checked after every message; early arrivals, an in-flight search alphabet and SDK-level open/close walks.",
          "in-flight pairs are excluded from used==mapped while a response is pending", "3 C13"),
  "C14": ("exploration", "runtime monitoring: register-set balance (icontract snapshot/ensure around each SDK operation) over long operation sequences + end-to-end results",
-         "Sequences of hundreds of completed SDK operations with periodic flushes; the active-register set must be unchanged by every completed operation and compilation must keep succeeding; nested programs are executed and compared with direct evaluation.",
+         "Sequences of hundreds of completed SDK operations with periodic flushes; the active-register set must be unchanged by every completed operation and compilation must keep succeeding; nested programs are executed and compared with direct evaluation; EPR histories incl. contexts, retried fidelity-constrained keeps and Array.undefine.",
          "R-HOST evaluator", "3 C14"),
  "C15": ("exploration", "runtime monitoring: round-trip oracle over all message types with literal expectations",
-         "All host and return message types x boundary values in their declared widths x every undefined-pattern up to length 6; decoded type and every field compared with the case description.",
+         "All host and return message types x boundary values in their declared widths x every undefined-pattern up to length 6 and arrays up to 2^20 entries; decoded type and every field compared with the case description.",
          "field values inside declared widths", "3 C15"),
  "C16": ("exploration", "runtime monitoring: out-of-range grid through three routes, oracle = raises or round-trips",
-         "Every operand kind in every instruction shape just outside / far outside its range via direct construction, text assembler, late app-id setting and the SDK; in-range twins must still encode.",
+         "Every operand kind in every instruction shape just outside / far outside its range via direct construction, text assembler, late app-id setting, template instantiation and the SDK, with plain and numpy-typed integers, random magnitudes, inside longer programs and in fresh processes with unusual first uses; in-range twins must still encode.",
          "any exception before bytes exist counts as rejection", "3 C16"),
  "C17": ("exploration", "runtime monitoring: print->parse oracle over enumerated classes/fields, incl. print after in-place update",
-         "Every class x field position swept; printed text must parse back to an equal instruction; text->binary->text must be a fixed point.",
+         "Every class x field position swept; printed text must parse back to an equal instruction; text->binary->text must be a fixed point; parsing is repeated after earlier results were edited in place; user-defined flavours.",
          "operands in range", "3 C17"),
  "C18": ("exploration", "runtime monitoring: controlled thread scheduler (sys.monitoring LINE yield points) exploring schedules, send/recv history checker",
-         "Real threads serialised by a scheduler that chooses the interleaving at every statement of the hub/socket code; random and bounded-preemption DFS schedules; per-(direction, socket id) exactly-once in-order history checker.",
+         "Real threads serialised by a scheduler that chooses the interleaving at every statement of the hub/socket code; random and bounded-preemption DFS schedules; per-(direction, socket id) exactly-once in-order history checker; free-running threads with up to 300 000 pending messages.",
          "statement-granularity interleavings, preemption bound", "3 C18"),
  "C19": ("exploration", "runtime monitoring: icontract postcondition on get_angle_spec_from_float with 60-digit arithmetic + SDK route",
          "Hostile angles x tolerances; every step encodable, at most 64 steps, error within tolerance modulo 2pi.",
          "one ulp of the input angle is allowed; known finding for tolerances below 1.87e-7", "3 C19"),
  "C20": ("exploration", "runtime monitoring: toolbox circuits run through the full pipeline on a state-vector backend, compared with ideal operators / projectors; outcome branches enumerated",
-         "Toffoli/T-dagger unitaries from all basis inputs, state preparation fidelities, parity measurements for all Pauli strings up to length 3 with exact outcome distributions.",
+         "Toffoli/T-dagger unitaries from all basis inputs, state preparation fidelities, parity measurements for all Pauli strings up to length 3 with exact outcome distributions; multi-application sessions on one long-lived controller with classically predictable results.",
          "R-QUANTUM operators", "3 C20"),
 }
 CLAIMED = [l.strip() for l in open(os.path.join(ROOT, "tools", "claimed.txt")) if l.strip()]
